@@ -1835,6 +1835,7 @@ def specialise_new_parameters(trees):
     applied = {}
     # keyword names passed anywhere, and the largest number of positional arguments per callee name
     kw_used, pos_used = {}, {}
+    star_used = set()
     for tree in trees.values():
         for c in ast.walk(tree):
             if isinstance(c, ast.Call):
@@ -1842,8 +1843,12 @@ def specialise_new_parameters(trees):
                 for k in c.keywords:
                     kw_used.setdefault(nm, set()).add(k.arg if k.arg is not None else "**")
                 if nm:
-                    n_pos = len(c.args) + (100 if any(isinstance(a, ast.Starred) for a in c.args) else 0)
+                    # a starred argument was written against the reference signature (more elements than that
+                    # had parameters would have been a TypeError): it fills old parameters only
+                    n_pos = len([a for a in c.args if not isinstance(a, ast.Starred)])
                     pos_used[nm] = max(pos_used.get(nm, 0), n_pos)
+                    if any(isinstance(a, ast.Starred) for a in c.args):
+                        star_used.add(nm)
     for rel, tree in trees.items():
         for parts, fn in alpha.walk_functions(tree):
             k = alpha.function_key(rel, parts)
@@ -1876,6 +1881,8 @@ def specialise_new_parameters(trees):
                     n_before = idx - (1 if is_method else 0)
                     if max(pos_used.get(cn, 0) for cn in callee_names) > n_before:
                         continue
+                    if callee_names & star_used and any(q.arg in old for q in pos[idx:]):
+                        continue   # an old parameter follows: a starred call may reach this position
                 mapping[nm] = d
             if mapping:
                 sub = _SubstNames(mapping, {})
